@@ -1239,6 +1239,30 @@ def check_direct_text_stores(ctx):
                           'source text of the live tree is rewritten in place with no flush of the node being worked on: its cached pars() / '
                           'bloc were computed from the old text', st.lineno,
                           sample={'function': fi.key, 'store': norm(st, 70), 'reviewed': rv})
+                # R2.7b: the text lies inside every ancestor of `self` as well; their memos (a with-item's location is computed from the
+                # parentheses of its expression, a block's bloc from its last line) are as stale as its own
+                rootonly = any(isinstance(a_, ast.Assert) and norm(a_.test) in ('not self.parent', 'self.is_root', 'self.parent is None')
+                               for a_ in fi.node.body)       # asserted to be called on a root: there are no ancestors
+                if not whole_lines and not rv and not rootonly and fi.name != '_touchall':
+                    anc = set()
+                    for nd2 in cfg.nodes:
+                        for x in subnodes(cfg, nd2):
+                            if not isinstance(x, ast.Call):
+                                continue
+                            cn = call_name(x)
+                            if cn == '_touchall':
+                                p0 = x.args[0] if x.args else next((k.value for k in x.keywords if k.arg == 'parents'), None)
+                                if p0 is None or (isinstance(p0, ast.Constant) and p0.value is True):
+                                    anc.add(nd2.id)
+                            elif cn in ('_offset', '_offset_lns', '_put_src', '_reparse_docstr_Constants', '_set_ast', '_fix_joined_alnums') or \
+                                    (cn and cn.startswith(('_parenthesize', '_unparenthesize', '_delimit', '_undelimit'))):
+                                anc.add(nd2.id)       # position-driven walks clear the memo of every node that contains the point
+                    okb = cfg.exit not in cfg.reachable(nd.id, lambda n_, lab, s: lab != 'exc', stop=anc) or nd.id in anc
+                    ctx.check('R2.7', okb, fi.module, fi.qualname, 'ancestors: ' + norm(st, 60),
+                              'source text of the live tree is rewritten in place and a path leaves the function without flushing the ancestors of the '
+                              'node: a memo of theirs that was computed from that text (the location of a with-item or comprehension is found from '
+                              'the parentheses of its first expression) is served stale', st.lineno,
+                              sample={'function': fi.key, 'store': norm(st, 70)})
     if n < 6:
         raise AnalysisError(f'only {n} direct live-line stores found')
 
